@@ -146,6 +146,8 @@ theorem step_sig_same {st : St} (hi : Inv st) (op : Op) (hk : op.keepsNames = tr
   | tick dt => rfl
   | register _ _ => cases hk
   | rename _ _ => cases hk
+  | logout _ => cases hk
+  | pruned _ _ => cases hk
   | setName _ _ => cases hk
   | load _ _ _ _ => cases hk
   | followNick id old new =>
